@@ -21,7 +21,7 @@ def gen(ctx, name, text, simulate=None, depth=None):
     c = "Gen_c20_%s.cfg" % name
     open(ctx.path("spec", c), "w").write(text)
     cf = ctx.path("cases_%s.ndjson" % name)
-    r = ctx.tlc("Gen_c20", c, env={"CASE_FILE": cf, "DICT_FILE": ctx.source_dict()}, workers=4, simulate=simulate, depth=depth, timeout=2400,
+    r = ctx.tlc("Gen_c20", c, env={"CASE_FILE": cf, "DICT_FILE": ctx.source_dict()}, workers=1 if (name.startswith("reps") or simulate) else 4, simulate=simulate, depth=depth, timeout=2400,
                 expect_ok=False)
     if r.invariant_violated or not r.ok:
         which = ""
@@ -62,7 +62,7 @@ def run(ctx):
                           intos="{FALSE, TRUE}"), None, None),
             # one name 12 times (suffixes beyond _9), next to the name a suffixed form would take
             ("reps12", cfg(12, '{"a", "a_10"}', '{"a"}', 0), None, None),
-            ("sim", cfg(7, POOLX, POOLX, 3, forms=FORMS, tags="TagsFew", tms=ALLTM, intos="{FALSE, TRUE}"), "num=2", 8),
+            ("sim", cfg(7, POOLX, POOLX, 3, forms=FORMS, tags="TagsFew", tms=ALLTM, intos="{FALSE, TRUE}"), "num=8", 8),
         ]
     else:
         mparts = [("mc5", cfg(5, POOL, '{"a", "a_1", "a_1_1"}', 2, emit=False)),
@@ -74,7 +74,7 @@ def run(ctx):
             ("opts3", cfg(3, '{"a", "a_1"}', '{"a"}', 1, forms='{"ref", "top", "bottom"}', tags="TagsTwo", tms=ALLTM,
                           intos="{FALSE, TRUE}"), None, None),
             ("reps13", cfg(13, '{"a", "a_10"}', '{"a"}', 0), None, None),
-            ("sim", cfg(9, POOLX, POOLX, 4, forms=FORMS, tags="TagsFew", tms=ALLTM, intos="{FALSE, TRUE}"), "num=10", 10),
+            ("sim", cfg(9, POOLX, POOLX, 4, forms=FORMS, tags="TagsFew", tms=ALLTM, intos="{FALSE, TRUE}"), "num=40", 10),
         ]
     # the source dictionary as call names (one output column each), plain and under INTO / an omitted time column
     # SELECT DISTINCT a [AS x] under every time mode (the keyword form of distinct(), rewritten by RewriteDistinct)
